@@ -155,7 +155,7 @@ def finding_matches(f, prop, spec, full, failed_clauses, inputs):
 def handle_failure(spec, case, ob, r, status, solver, model_vals, detail, full, rep, baseline, findings):
     replay = {"property": rep.prop, "contract": spec.name, "function": "%s:%s" % (spec.file, spec.qualname),
               "obligation": full, "case": H.jsonable(case), "solver": solver, "status": status,
-              "solver_output": detail, "vc": fmt_goal(ob, 4000)}
+              "solver_output": detail, "vc": fmt_goal(ob, 4000), "source_line": ob.where}
     confirmed = False
     inputs = None
     failed_clauses = []
@@ -292,7 +292,7 @@ def plainify(v):
         n = concrete_int(v.length)
         if n is None:
             return v
-        return bytes(z3.simplify(z3.Select(v.arr, i)).as_long() for i in range(n))
+        return bytes(z3.simplify(v.at(i)).as_long() for i in range(n))
     if isinstance(v, SStr):
         s = z3.simplify(v.term)
         if z3.is_string_value(s):
